@@ -63,7 +63,13 @@ fn build(sim: &Sim, st: &C18State, spec: &TxSpec) -> Option<Built> {
             return None;
         }
         let (_, tx, _) = &st.pool[rng.usize_below(st.pool.len())];
-        return Some(Built { tx: tx.clone(), valid: true, why: "resubmission of a pool member".into(), groups: 0 });
+        // still verifiable only if its inputs are still known (a pending parent may have been evicted)
+        let known = tx.input_pts_iter().all(|op| {
+            st.pool.iter().any(|(h, _, _)| h == &op.tx_hash())
+                || c.storage.get_transaction_with_header(&op.tx_hash()).is_some()
+        });
+        let why = if known { "resubmission of a pool member" } else { "resubmission of a pool member whose pending parent was evicted" };
+        return Some(Built { tx: tx.clone(), valid: known, why: why.into(), groups: 0 });
     }
     let world = &sim.world;
     let dep_known = c.storage.get_transaction_with_header(&world.always_success_dep.out_point().tx_hash()).is_some();
